@@ -301,6 +301,30 @@ def chain_rules(F, R):
     if not okp:
         R.violation("CHAIN", ad + "/prefix-predicate", "the scan for 'all entries before this one' no longer compares whole entries: an entry spliced in front of this one "
                     "(same AS / partial equality) is not covered by this entry's signature input", F.loc(ad))
+    # CHAIN-all: "over ... all preceding entries": the iterator handed to flat_map is the take_while prefix itself.  An adaptor
+    # in between that narrows the prefix (last, nth, skip, filter ...) leaves some preceding entries out of the signature input.
+    NARROW = re.compile(r"::(last|nth|nth_back|skip|skip_while|step_by|filter|filter_map|next|next_back|find|find_map|max|max_by|max_by_key|min|min_by|min_by_key|reduce|peekable)$")
+    NEUTRAL = re.compile(r"::(take_while|iter|into_iter|deref|as_slice|by_ref|copied|cloned)$")
+    fm = [c for c in ab.calls if not c.indirect and c.decl.endswith("Iterator::flat_map")]
+    R.floor("CHAIN-all", len(fm), 1, "flat_map calls in associated_data")
+    for c in fm:
+        t = ab.origin(c.args[0])
+        names, unknown = [], []
+        for _ in range(12):
+            while t and t[0] in ("ref", "deref"):
+                t = t[-1]
+            if not t or t[0] != "call" or not t[2]:
+                break
+            names.append(t[1])
+            t = t[2][0]
+        narrow = [x for x in names if NARROW.search(x)]
+        unknown = [x for x in names if not NARROW.search(x) and not NEUTRAL.search(x)]
+        okc = not narrow and any(x.endswith("::take_while") for x in names)
+        R.ob("CHAIN-all", "associated_data: flat_map consumes the whole take_while prefix (adaptors: %s)%s" % (", ".join(x.split("::")[-1] for x in names), "; undecided adaptors: %s" % unknown if unknown else ""),
+             okc or bool(unknown and not narrow), True, {"rule": "CHAIN-all", "adaptors": names, "undecided": unknown, "holds": okc})
+        if narrow:
+            R.violation("CHAIN-all", ad + "/narrowed-prefix", "the entries fed into the signature input pass through %s before flat_map: only part of the preceding entries "
+                        "is covered, so tampering with or reordering the others goes undetected" % ", ".join(x.split("::")[-1] for x in narrow), c.span.loc)
     R.ob("CHAIN", "associated_data = once(info.encoded).chain(entries before self → [header_and_body, signature])", ok, True,
          {"rule": "CHAIN", "closure_fields": sorted(t for t in kt if t.startswith("field:"))[:12], "holds": ok})
     if not ok:
